@@ -146,7 +146,7 @@ def run(ctx):
                 r.ok(rule, key, 'a server limit value (assumed in [1, max])', loc=b.loc)
             elif is_param(b, v, 'requested_max_keep_alive_count'):
                 lo = F.cmp_holds(lits, 'ne', v, ('k', '0', 'u32')) or F.cmp_holds(lits, 'ge', v, ('k', '1', 'u32'))
-                hi = [l for l, e in lits if l[0] == 'cmp' and l[1] in ('le', 'lt') and l[2] == v and is_field(l[3], 'max_keep_alive_count')]
+                hi = cmp_lits(lits, v, ('le', 'lt'), lambda x: is_field(x, 'max_keep_alive_count'))
                 if lo and hi:
                     r.ok(rule, key, 'requested keep-alive returned only when 1 <= requested <= max', loc=b.loc)
                 else:
@@ -183,7 +183,7 @@ def run(ctx):
                 else:
                     r.fail(rule, key, 'the lifetime count is clamped to max_lifetime_count, which is not known to be >= 3 x keep-alive', loc=b.loc)
             elif is_param(b, v, 'requested_lifetime_count'):
-                if any(l[0] == 'cmp' and l[1] in ('ge', 'gt') and l[2] == v and three_ka(l[3]) for l, e in lits):
+                if cmp_lits(lits, v, ('ge', 'gt'), three_ka):
                     r.ok(rule, key, 'requested lifetime returned only when >= 3 x keep-alive', loc=b.loc)
                 else:
                     r.fail(rule, key, 'the requested lifetime count is returned without being known >= 3 x keep-alive', loc=b.loc)
